@@ -259,7 +259,8 @@ class BuiltinsMixin(object):
             if f is not None:
                 return self.call_value(Bound(b, FRef(f)), [a], [], path, node)
         # sets
-        if sym in ('|', '&', '-', '^'):
+        if sym in ('|', '&', '-', '^') and (
+                self.is_setlike(a, path) or self.is_setlike(b, path)):
             if inplace and isinstance(a, Obj) and \
                     path.heap[a.oid].kind == 'set':
                 name = {'|': 'update', '&': 'intersection_update',
@@ -298,6 +299,19 @@ class BuiltinsMixin(object):
             return True
         return False
 
+    def is_setlike(self, v, path):
+        if isinstance(v, Obj):
+            return path.heap[v.oid].kind in ('set', 'dict', 'list')
+        if isinstance(v, Coll):
+            return True
+        if isinstance(v, App) and v.op in ('setop', 'nodes', 'next', 'reach',
+                                           'labels', 'alllabels', 'sources',
+                                           'dictview', 'edges'):
+            return True
+        t = self.typeof(v, path) if isinstance(v, (Sym, App)) else None
+        return t is not None and t[0] == 'b' and t[1] in ('set', 'dict',
+                                                         'list')
+
     def is_set(self, v, path):
         if isinstance(v, Obj):
             return path.heap[v.oid].kind == 'set'
@@ -332,9 +346,16 @@ class BuiltinsMixin(object):
             f = self.prog.method(ci, '__str__')
             if f is not None and len(self.stack) < self.max_depth and \
                     self.hooks.inline(self, f, [v]):
-                res = self.call_value(Bound(v, FRef(f)), [], [], path, node)
+                trial = path.fork()
+                n0 = len(trial.pc)
+                try:
+                    res = self.call_value(Bound(v, FRef(f)), [], [], trial,
+                                          node)
+                except Exception:
+                    res = []
                 res = [(p, r) for (p, r) in res if not isinstance(r, Raise)]
-                if len(res) == 1:
+                if len(res) == 1 and len(res[0][0].pc) == n0 and \
+                        not isinstance(res[0][1], Obj):
                     return res[0][1]
         return App('str', v)
 
@@ -1054,6 +1075,12 @@ class BuiltinsMixin(object):
             # known lower bound only: instance of typ (or subclass)
             if vc.is_subclass_of(ci):
                 return True
+            if isinstance(vc, ClassInfo) and isinstance(ci, ClassInfo):
+                # could a subclass of vc also be a subclass of ci?
+                for c in self.prog.classes.values():
+                    if c.is_subclass_of(vc) and c.is_subclass_of(ci):
+                        return None
+                return False
             return None
         if vc is not None:
             if isinstance(ci, ExtClass) and ci.name == 'int' and \
